@@ -566,8 +566,14 @@ class Group:
             q_dpka = self.charge * (self.model_pka - ph)
         else:
             q_dpka = self.charge * (self.pka_value - ph)
-        conc_ratio = 10**q_dpka
-        charge = self.charge*(conc_ratio/(1.0+conc_ratio))
+        # charge/(1 + 1/ratio) with ratio = 10**q_dpka: the pH enters once and
+        # every step is monotone, so the rounded charge never increases with
+        # the pH (ratio/(1 + ratio) rounds numerator and denominator separately
+        # and could go up by one unit in the last place).  The exponent is
+        # capped where the charge is zero to 300 digits, so 10**x cannot
+        # overflow for extreme pH values.
+        inverse_ratio = 10**min(-q_dpka, 300.0)
+        charge = self.charge/(1.0+inverse_ratio)
         return charge
 
     def use_in_calculations(self) -> bool:
